@@ -11,13 +11,13 @@ CHECKS = {
  "C02": ("Seeded search over schedules of the real advanced scheduler: 1-4 jobs and 0-6 API calls placed at -5s/-1ns/0/+1ns/+5s of the timer, every lock/select/atomic a recorded scheduling decision; the recorded history is judged by a contract model (exactly once, run-now success implies a run, cancel clearly before, periodic non-overlap and ticking, name reuse). Further clauses: a live job (in particular a periodic one) stays known to JobExists/ListJobs/CancelJob/RunJob and keeps its name taken; of overlapping requests to schedule one name at most one is accepted.",
          "job functions and callers are stubs; go-deadlock's detector is disabled under go1.26 (modelled locks replace it)",
          TECH + "contract-model oracle over recorded history"),
- "C03": ("Whole-system simulation: real controller, scheduler and chaintime against a simulated chain (seeded duty tables keyed by duty-dependent roots, head/block event streams from 1-2 nodes, reorgs, missed slots, slow/failing duty requests, crash/restart at arbitrary instants, start before/at/after genesis and on epoch boundaries). Oracle: never two executions per (kind, slot, validator) over all incarnations; every execution carries exactly the validators of the duty set last obtained; every obtained future duty is executed at slot start + configured delay (earlier only when fast-tracked); vouch's slot/epoch/time conversions equal the oracle's integer arithmetic at every probe instant. Run with recording duty services (focused) and with the real ones (full). Further clauses: a head event showing changed duty-dependent roots (judged from the events the node delivered) makes vouch request the affected duties again; proposals follow the proposer duties obtained last; a sync committee period lived through has been requested; plans include slow duty requests overlapping reorgs, answers computed at request time, long proposals.",
+ "C03": ("Whole-system simulation: real controller, scheduler and chaintime against a simulated chain (seeded duty tables keyed by duty-dependent roots, head/block event streams from 1-2 nodes, reorgs, missed slots, slow/failing duty requests, crash/restart at arbitrary instants, start before/at/after genesis and on epoch boundaries). Oracle: never two executions per (kind, slot, validator) over all incarnations; every execution carries exactly the validators of the duty set last obtained; every obtained future duty is executed at slot start + configured delay (earlier only when fast-tracked); vouch's slot/epoch/time conversions equal the oracle's integer arithmetic at every probe instant. Run with recording duty services (focused) and with the real ones (full). Further clauses: a head event showing changed duty-dependent roots (judged from the events the node delivered) makes vouch request the affected duties again; proposals follow the proposer duties obtained last; a sync committee period lived through has been requested; plans include slow duty requests overlapping reorgs, answers computed at request time, long proposals; an attestation job never stems from an answer that arrived after its slot was over.",
          "beacon nodes, accounts and event streams are stubs; main.go wiring is reproduced by the harness",
          TECH + "history oracle against the duties the node stub actually served"),
  "C04": ("Same component scenario as C01 with content focus: duties with 1-6 validators over 1-3 committees of distinct sizes, subsets already attested / without account / left unsigned, mixed account kinds. Oracle: each submitted attestation is attributed to its validator through the signer log and must carry that validator's committee index, bit position and committee size and the data obtained for the run; validators without signature yield none.",
          "accounts, beacon nodes and submitter are stubs; seeded sampling",
          TECH + "per-validator attribution through the signer log"),
- "C05": ("Real block proposer (Prepare+Propose) + signer over stub proposal providers, auctioneer, relays and submitter: versions phase0..deneb, full and blinded, proposals for the duty slot or another slot, graffiti and auction failures, per-relay unblinding behaviours. Oracle: RANDAO/block signing only for the duty's validator and slot, signed roots recomputed from the obtained block, submitted = signed block, unblinding provenance, degradation instead of skipping. Includes a slot that was prepared for another of vouch's validators first.",
+ "C05": ("Real block proposer (Prepare+Propose) + signer over stub proposal providers, auctioneer, relays and submitter: versions phase0..deneb, full and blinded, proposals for the duty slot or another slot, graffiti and auction failures, per-relay unblinding behaviours. Oracle: RANDAO/block signing only for the duty's validator and slot, signed roots recomputed from the obtained block, submitted = signed block, unblinding provenance, degradation instead of skipping. Includes a slot that was prepared for another of vouch's validators first, obtained blocks that name another proposer index (the signer is only ever asked for the duty's validator), relays that give up without a block before a slower relay returns it.",
          "proposal providers, relays, auctioneer and submitter are stubs; seeded sampling",
          TECH + "history oracle with independently recomputed SSZ roots"),
  "C06": ("Real signer driven through all its signing methods with generated messages and batches over all four account kinds, a generated fork schedule and signer faults. Oracle: every returned signature verifies with real BLS under the requested account's key against compute_signing_root built independently from the specification (object root, domain type, fork version of the duty's epoch); batch position i belongs to account i. Includes a specification without the builder domain type and failing domain requests.",
@@ -29,13 +29,13 @@ CHECKS = {
  "C08": ("Real multinode (8 kinds) and immediate submitters with util.Scatter over 1-5 stub nodes: payload 1-40 with concurrency 1-8, accept / reject / tolerated rejection texts in the client libraries' rendering / malformed / slow / hang, instant answers (lost wake-up schedule) and answers at the timeout instant. Oracle: every node offered the full payload exactly once; success iff some node accepted or rejected only for a tolerated reason by the timeout; returns by the timeout; node isolation. Includes earlier submissions with hanging calls on the same service instance, a hanging version query, and the clause that every node is offered the submission the moment it is made (concurrency permitting).",
          "beacon nodes are stubs rendering errors with go-eth2-client's own error types; seeded sampling",
          TECH + "delivery/verdict oracle over stub histories"),
- "C09": ("Real builderbid best/deadline strategies over stub relays signing bids with real BLS: values, builders, timestamps, fee recipients, signature validity, latencies around the deadline, improving bid sequences, equal headers, relay minimums, builder offset/factor/excluded. Oracle: reference eligibility and score from the property statement; winner maximal among eligible bids returned before the return instant; providers offered the winning header; no eligible bid => no winner. A third scenario drives blockrelay.BuilderBid (REST interface) with several beacon nodes asking for one bid: a bid handed out has a positive value.",
+ "C09": ("Real builderbid best/deadline strategies over stub relays signing bids with real BLS: values, builders, timestamps, fee recipients, signature validity, latencies around the deadline, improving bid sequences, equal headers, relay minimums, builder offset/factor/excluded. Oracle: reference eligibility and score from the property statement; winner maximal among eligible bids returned before the return instant; providers offered the winning header; no eligible bid => no winner. A third scenario drives blockrelay.BuilderBid (REST interface) with several beacon nodes asking for one bid: a bid handed out has a positive value. A fourth scenario runs 2-3 auctions per run through the real util.FetchBuilderClient cache and go-builder-client (relay stubs on a loopback socket used as a synchronous call, see DESIGN.md 0.2) with relay addresses that gain, lose or change their public key between auctions.",
          "relays are stubs; seeded sampling",
          TECH + "reference eligibility/score oracle"),
  "C10": ("Real block relay + v1/v2 config parsing fed by a stub configuration source with generated documents (all presence patterns over five levels, ordered proposer entries by key/regex, reset_relays, disabled/added relays). Oracle: independent reference resolver written from docs/, compared field by field with ProposerConfig results; marshal/unmarshal round trip resolves identically.",
          "configuration source, relays and accounts are stubs; resolution is a function of (document, validator) observed over a history of documents",
          TECH + "reference resolver written from the documentation"),
- "C11": ("Real block relay registration rounds and proposal preparer over stub relays/nodes with configuration changes between rounds and partial failures. Oracle: each (validator, relay) registration names the key with the reference-resolved fee recipient and gas limit and is BLS-signed over them; preparations carry the resolved fee recipient; cached registrations only on equal content; failures are isolated. Includes failing domain requests; a failed signature excuses only the relays whose registration content it was for.",
+ "C11": ("Real block relay registration rounds and proposal preparer over stub relays/nodes with configuration changes between rounds and partial failures. Oracle: each (validator, relay) registration names the key with the reference-resolved fee recipient and gas limit and is BLS-signed over them; preparations carry the resolved fee recipient; cached registrations only on equal content; failures are isolated. Includes failing domain requests; a failed signature excuses only the relays whose registration content it was for. The builder endpoint pass-through is called with registrations made elsewhere: a relay never receives, for one of vouch's validators, a registration not resolved from the configuration in force.",
          "configuration source, relays, nodes are stubs; seeded sampling",
          TECH + "reference resolver + BLS verification at the receiving stubs"),
  "C12": ("Real block relay under arbitrary sequences of configuration fetch outcomes interleaved with concurrent lookups, auctions, registrations. Oracle: last-good-configuration model; modelled RWMutex (writer preference) detects deadlock and leaked locks; every request returns. Includes relay addresses no client can be made for, gas-only configuration changes; what a round tells a relay stems from a configuration in force during the round.",
@@ -44,10 +44,10 @@ CHECKS = {
  "C13": ("Real wallet and dirk account managers and validators manager with stub wallets/validators provider: specifier lists (plain, wallet-only, regex with/without anchors, traps), validator life cycles swept by simulated time, refresh outcomes (full, partial, empty, error) interleaved with lookups. Oracle: reference model (full match of wallet/account, activation <= e < exit and not slashed, sync eligibility until withdrawable, retain-on-empty).",
          "wallet contents, Dirk servers (through an add-only constructor hook) and validators provider are stubs",
          TECH + "reference account/validator model"),
- "C14": ("Whole-system simulation with the real beacon committee subscriber, attestation aggregator, attester, signer (real BLS), controller and scheduler: duties before/at/after the current slot, several committees per slot, both outcomes of is_aggregator, start-up mid-epoch/on boundaries, reorg refreshes. Oracle: every subscription request contains every duty later than the slot current at submission, entries match the validator's duty, aggregator flag equals the specification's is_aggregator on the signer-logged slot signature, an aggregation runs at slot start + configured delay for every committee with a selected validator and only for selected validators.",
+ "C14": ("Whole-system simulation with the real beacon committee subscriber, attestation aggregator, attester, signer (real BLS), controller and scheduler: duties before/at/after the current slot, several committees per slot, both outcomes of is_aggregator, start-up mid-epoch/on boundaries, reorg refreshes. Oracle: every subscription request contains every duty later than the slot current at submission, entries match the validator's duty, aggregator flag equals the specification's is_aggregator on the signer-logged slot signature, an aggregation runs at slot start + configured delay for every committee with a selected validator and only for selected validators (judged on the subscription info held when the attestation process returned). Includes the first epoch of a chain, attesting that takes time, and a subscription that completes while attesting is under way.",
          "beacon node, accounts provider and event stream are stubs; seeded sampling",
          TECH + "independently implemented specification rules over the signer log"),
- "C15": ("Whole-system simulation with the real sync committee messenger, aggregator, subscriber, controller sync scheduling, signer (real BLS): short periods, start before/at genesis, inside the first period, around a period boundary; a member without account, a withheld signature, head-root failures, missed slots. Oracle: per member and slot of the window exactly one message by slot start + configured delay, BLS-verified over a head root the node returned in that slot; contribution aggregators equal is_sync_committee_aggregator on the recorded selection proof; one member's absence removes only its own messages. Includes reorgs in the first epoch of a period, a start exactly the preparation lead before a period boundary (a period never requested is a violation), a withheld contribution signature.",
+ "C15": ("Whole-system simulation with the real sync committee messenger, aggregator, subscriber, controller sync scheduling, signer (real BLS): short periods, start before/at genesis, inside the first period, around a period boundary; a member without account, a withheld signature, head-root failures, missed slots. Oracle: per member and slot of the window exactly one message by slot start + configured delay, BLS-verified over a head root the node returned in that slot; contribution aggregators equal is_sync_committee_aggregator on the recorded selection proof; one member's absence removes only its own messages. Includes reorgs in the first epoch of a period, a start exactly the preparation lead before a period boundary (a period never requested is a violation), a withheld contribution signature, a message signature that fails in one slot only, exited validators still eligible for sync duty (every duties request names every managed member of the period; a completed preparation asked for the member's selection proof).",
          "beacon node, accounts provider and event stream are stubs; contribution content is a stub value",
          TECH + "independently implemented specification rules and real BLS verification"),
  "C16": ("Odd-content fault kind switched on in the whole-system simulation and in component scenarios: nil data and nested pointers, empty lists, duplicate/out-of-range duties, other-slot payloads, nil values, blinded proposal without auction, odd relay addresses, graffiti, configuration shapes. Oracle: no panic/fatal error in any task (every instrumented goroutine runs under a recover wrapper), and the next clean duty completes. Also: odd-shaped execution configuration documents (JSON nodes nulled/emptied/retyped), odd error bodies of rejected submissions, block headers without content, zero or absurd specification values, graffiti sources (blank files, templates, failing source), unobtainable builder clients asked repeatedly.",
